@@ -167,6 +167,15 @@ impl Config {
         };
         let keep_internal_dispositions_for_stoppers = job_control.is_none();
 
+        // Install the internal disposition for SIGCHLD before the child is
+        // created. If SIGCHLD were ignored (because the shell inherited that
+        // disposition or the user ran `trap '' CHLD`) at the time the child
+        // terminates, the system would discard the child's exit status and
+        // a later `wait` for the child would fail with `ECHILD`.
+        env.traps
+            .enable_internal_disposition_for_sigchld(&env.system)
+            .await?;
+
         // Define the child process task
         const ME: Pid = Pid(0);
         let child_task = move |mut child_env: Env<S>, ()| async move {
